@@ -196,7 +196,7 @@ func c12RespondOnce(c *Ctx) {
 			return k
 		}
 		helperCount[h] = -1
-		if depth > 2 || len(h.Blocks) == 0 {
+		if depth > 4 || len(h.Blocks) == 0 {
 			return -1
 		}
 		counts := map[int]bool{}
